@@ -20,6 +20,7 @@ import RF.Driver.ParseErrs
 import RF.Driver.Lists
 import RF.Driver.StringFmt
 import RF.Driver.MacroFmt
+import RF.Driver.MissedSpans
 /-!
 `rfmodel`: one request per line on stdin, one response per line on stdout.
 `?` is printed for a request no handler understands (the harness treats it as a protocol error,
@@ -49,6 +50,7 @@ def handlers : List (String → List String → Option String) :=
    RF.Driver.Lists.handle,
    RF.Driver.StringFmt.handle,
    RF.Driver.MacroFmt.handle]
+   RF.Driver.MissedSpans.handle]
 
 def dispatch (line : String) : String :=
   match (line.trimAscii.toString.splitOn " ").filter (· ≠ "") with
